@@ -59,6 +59,7 @@ type verifSys struct {
 	Apply func(w *verifWorld, e verifEv) []verifFinding
 	Final func(w *verifWorld) []verifFinding // at maximal states (no enabled event)
 	Label func(w *verifWorld) string         // observable outcome of a maximal state
+	OnNew func(w *verifWorld) []verifFinding // evaluated once in every distinct state (probes on clones)
 	// NoDedup disables state matching (stateless enumeration of all paths)
 	NoDedup bool
 }
@@ -259,6 +260,9 @@ func (ex *verifExplorer) expand(n *verifNode) {
 		}
 		ex.mu.Unlock()
 		if isNew {
+			if ex.sys.OnNew != nil {
+				ex.report(kid, nil, ex.sys.OnNew(w2))
+			}
 			kids = append(kids, kid)
 		}
 	}
@@ -294,6 +298,9 @@ func verifReplay(sys *verifSys, path []verifEv) (sigs []string, details map[stri
 			return nil, nil, fmt.Errorf("replay diverged: event %d %s is not enabled", i, ev)
 		}
 		add(sys.Apply(w, ev))
+		if sys.OnNew != nil {
+			add(sys.OnNew(w))
+		}
 	}
 	if len(sys.Evs(w)) == 0 && sys.Final != nil {
 		add(sys.Final(w.clone()))
